@@ -2,7 +2,7 @@ import StatimeModel.Model.Port
 /-!
 # An interpreter for the message constructors the translator extracts
 
-`translator/extract_msgs.py` reads `Message::sync`, `follow_up`, `delay_req`, `delay_resp` and `pdelay_req`
+`translator/extract_msgs.py` reads `Message::sync`, `follow_up`, `delay_req`, `delay_resp`, `pdelay_req`, `pdelay_resp` and `pdelay_resp_follow_up`
 in `statime/src/datastructures/messages/mod.rs` on every run and writes `Generated/MsgCtors.lean`: the base
 header each starts from, every header field it overrides and where the value comes from, and the body.
 `Ctor.eval` gives that its meaning; `Props/C10.lean` proves it equal to the model's `msgSync` … for all arguments.
@@ -34,6 +34,8 @@ inductive BodyC
   | followUpTs                                         -- `precise_origin_timestamp: timestamp.into()`
   | delayRespTsReqSrc                                  -- `receive_timestamp: timestamp.into(), requesting_port_identity: request_header.source_port_identity`
   | delayRespTsOwnPid                                  -- the same with `requesting_port_identity: port_identity`
+  | pdelayRespTsReqSrc                                 -- `request_receive_timestamp: timestamp.into(), requesting_port_identity: request_header.source_port_identity`
+  | pdelayRespFuTsRequestor                            -- `response_origin_timestamp: timestamp.into(), requesting_port_identity: requestor_identity`
   deriving DecidableEq, Repr, Inhabited
 
 structure Ctor where
@@ -50,6 +52,7 @@ structure Env where
   req : Header
   ts : Nat
   ilog : Int
+  requestor : PortId
 
 def HBase.eval (e : Env) : HBase → Header
   | .baseHeader false => Statime.baseHeader e.d e.pid e.seq e.minor
@@ -77,6 +80,8 @@ def BodyC.eval (e : Env) : BodyC → R Body
   | .followUpTs => (liftOv (timeToWire e.ts)).map (fun w => Body.followUp w)
   | .delayRespTsReqSrc => (liftOv (timeToWire e.ts)).map (fun w => Body.delayResp w e.req.src)
   | .delayRespTsOwnPid => (liftOv (timeToWire e.ts)).map (fun w => Body.delayResp w e.pid)
+  | .pdelayRespTsReqSrc => (liftOv (timeToWire e.ts)).map (fun w => Body.pdelayResp w e.req.src)
+  | .pdelayRespFuTsRequestor => (liftOv (timeToWire e.ts)).map (fun w => Body.pdelayRespFu w e.requestor)
 
 /-- outer `none`: ill-formed table; inner result: the message or the overflow of `timestamp.into()` -/
 def Ctor.eval (c : Ctor) (e : Env) : Option (R Msg) :=
